@@ -56,6 +56,7 @@ class Unit:
         self.elem_name = elem_name
         self.elem_inner = elem_inner
         self.posint = posint
+        self.self_ty = None  # see rtype
         self.consts = {}     # rust name -> (gname, type)
         self.free = {}       # rust free fn name -> FnSig
         self.methods = {}    # method / assoc fn name on the element type -> FnSig
@@ -78,6 +79,9 @@ class Unit:
                 # C16: a unit whose `Self` is an opaque struct (not the field element newtype); several Rust
                 # spellings (`Self`, `Assertion<E>`, `Assertion`) share one canonical struct name
                 return ("struct", self.structs[n].get("canon", n), self.structs[n]["gtype"])
+            if n == "Self" and getattr(self, "self_ty", None) is not None:
+                # C07 coverage round: `impl From<BaseElement> for u64` etc.: Self is the integer type of the impl header
+                return self.self_ty
             if n in ("Self", self.elem_name, "Self::BaseField"):
                 return ELEM
             if n == "Self::PositiveInteger":
@@ -527,6 +531,9 @@ class FnTr:
 
     def mcall(self, e, env, expect):
         recv, name, args = e[1], e[2], e[3]
+        if name == "map_err" and len(args) == 1 and expect is not None and expect[0] == "option":
+            # C07 coverage round: Result::map_err only rewrites the error payload, which the option view drops
+            return self.expr(recv, env, expect)
         # (lo..hi).rev() handled by for-loops only
         g, t = self.expr(recv, env, None)
         if t == LIT and name in ("wrapping_sub", "wrapping_add"):
@@ -565,6 +572,9 @@ class FnTr:
             want = expect[1] if (name == "try_into" and expect[0] == "option") else expect
             if t == BOOL and is_int(want):
                 return ("app", "b2z", [g]), want
+            if name == "try_into" and expect[0] == "option" and is_int(t) and is_int(want):
+                # C07 coverage round: uN::try_from(x) = Ok(x) iff x fits in uN
+                return ("if", self.in_range(want, g), ("some", g), ("none",)), expect
             if is_int(t) and is_int(want) and name == "into":
                 return g, want
             if want == ELEM and t[0] == "array":
